@@ -247,7 +247,7 @@ def run_daemon(desc):
     qa = corpus.qa_messages()
     asn4 = desc['part'] % 2 == 0
     text = 'process sink {\n    run @PY@ @DIR@/sink.py @DIR@/events;\n    encoder json;\n}\n' + corpus.all_families_text(
-        las=65000, pas=65001, asn4=True, addpath=3 if desc['part'] % 4 >= 2 else 0, adj_rib_in=True, extra='api { processes [ sink ]; neighbor-changes; receive { parsed; update; notification; open; refresh; operational; } }'
+        las=65000, pas=65001, asn4=True, addpath=3 if desc['part'] % 4 >= 2 else 0, adj_rib_in=True, extra='api { processes [ sink ]; neighbor-changes; receive { parsed; %supdate; notification; open; keepalive; refresh; operational; } send { parsed; update; notification; open; keepalive; } }' % ('packets; consolidate; ' if desc['part'] % 2 else '')
     )
     d = daemon.Daemon(text, env={'exabgp_log_level': 'ERROR'})
     peer = None
